@@ -438,6 +438,17 @@ theorem hasBit_clearBits_other (a m m' : Nat) (hm : (4294967295 ^^^ m) &&& m' = 
 
 theorem hasBit_zero (m : Nat) : hasBit 0 m = false := by simp [hasBit]
 
+theorem hasBit_or (a m m' : Nat) : hasBit (a ||| m) m' = (hasBit a m' || hasBit m m') := by
+  unfold hasBit
+  rw [Nat.and_or_distrib_right]
+  by_cases h1 : a &&& m' = 0
+  · rw [h1, Nat.zero_or]; simp
+  · have : (a &&& m' ||| m &&& m') ≠ 0 := fun e => h1 (Nat.or_eq_zero_iff.mp e).1
+    have e1 : ((a &&& m' ||| m &&& m') != 0) = true := by simpa using this
+    have e2 : ((a &&& m') != 0) = true := by simpa using h1
+    rw [e1, e2]; rfl
+
+
 /-- a hidden board leaves `mNewbrd` without post-mask and with level 0. -/
 theorem hide_facts (q : Req) (hh : hasBit (buildAttr q) BRD_HIDE = true) :
     hasBit (buildAttr q) BRD_POSTMASK = false ∧ buildLevel q = 0 := by
@@ -628,6 +639,28 @@ theorem cache_bm_eq' {s : State} (h : Inv s) (i : Nat) :
 theorem groupOpOf_cache {s : State} (h : Inv s) (q : Req) : groupOpOf s.cache q = groupOpOf s.brd q := by
   simp only [groupOpOf, cache_bm_eq' h]
 
+theorem gen_parent : parentChecked = true := by decide
+
+theorem parentIsClass_cache {s : State} (h : Inv s) (cls : Int) :
+    parentIsClass s.cache cls = parentIsClass s.brd cls := by
+  unfold parentIsClass
+  generalize cls.toNat - 1 = i
+  by_cases hi : i < s.bnumber
+  · obtain ⟨x, hx⟩ := h.get_of_lt hi
+    obtain ⟨c, hc, hok⟩ := h.copy i x hx
+    have hn := hok.name
+    simp only [List.getD, hx, hc, Option.getD_some, hn]
+    rcases hok with e | ⟨_, e⟩
+    · subst e; rfl
+    · subst e
+      have : hasBit BRD_POSTMASK BRD_GROUP = false := by decide
+      simp only [shmOf, hasBit_or, this, Bool.or_false]
+  · have hb : s.brd[i]? = none := List.getElem?_eq_none (by rw [h.len]; omega)
+    by_cases him : i < MAXB
+    · simp [List.getD, hb, h.beyond i (by omega) him]
+    · have hc : s.cache[i]? = none := List.getElem?_eq_none (by rw [h.clen]; omega)
+      simp [List.getD, hb, hc]
+
 theorem validName_key_ne {n : Bytes} (h : validNameSpec n = true) : nameKey n ≠ [] := by
   unfold validNameSpec at h
   unfold nameKey
@@ -695,19 +728,24 @@ theorem newBoard_step {srt : Sorter} (hs : SortSpec srt) {s : State} (h : Inv s)
   · exact refusal_pack h q .invalidBid (by intro b; simp) (by simp [specDecide, hvb0]) _
       (by simp [newBoard, hvb0])
   have hvb : validBid q.cls = true := by simpa using hvb0
+  have hpc : parentIsClass s.cache q.cls = parentIsClass s.brd q.cls := parentIsClass_cache h q.cls
+  by_cases hpar0 : parentIsClass s.brd q.cls = false
+  · exact refusal_pack h q .invalidBid (by intro b; simp) (by simp [specDecide, hvb, hpar0]) _
+      (by simp [newBoard, hvb, gen_parent, hpc, hpar0])
+  have hpar : parentIsClass s.brd q.cls = true := by simpa using hpar0
   have hpe : groupOpOf s.cache q = permitted s.brd q := groupOpOf_cache h q
   by_cases hp0 : permitted s.brd q = false
   · have hb' : hasBit q.ulevel PERM_BOARD = false := by
       cases hx : hasBit q.ulevel PERM_BOARD with
       | false => rfl
       | true => simp [permitted, groupOpOf, hx] at hp0
-    exact refusal_pack h q .notPermitted (by intro b; simp) (by simp [specDecide, hvb, hp0]) _
-      (by simp [newBoard, hvb, hpe, hp0, hb'])
+    exact refusal_pack h q .notPermitted (by intro b; simp) (by simp [specDecide, hvb, hpar, hp0]) _
+      (by simp [newBoard, hvb, gen_parent, hpc, hpar, hpe, hp0, hb'])
   have hp : permitted s.brd q = true := by simpa using hp0
-  have hnb : newBoard srt s q = mNewbrd srt s q := by simp [newBoard, hvb, hpe, hp]
+  have hnb : newBoard srt s q = mNewbrd srt s q := by simp [newBoard, hvb, gen_parent, hpc, hpar, hpe, hp]
   rw [hnb]
   by_cases hvn0 : validNameSpec q.name = false
-  · exact refusal_pack h q .invalidName (by intro b; simp) (by simp [specDecide, hvb, hp, hvn0]) _
+  · exact refusal_pack h q .invalidName (by intro b; simp) (by simp [specDecide, hvb, hpar, hp, hvn0]) _
       (by simp [mNewbrd, isValidName_eq, hvn0])
   have hvn : validNameSpec q.name = true := by simpa using hvn0
   have hkne := validName_key_ne hvn
@@ -720,7 +758,7 @@ theorem newBoard_step {srt : Sorter} (hs : SortSpec srt) {s : State} (h : Inv s)
       · exact hx
     subst hbk
     exact refusal_pack h q .nameExists (by intro b; simp)
-      (by simp [specDecide, hvb, hp, hvn, nameTaken_true hr0 hkey hkne]) _
+      (by simp [specDecide, hvb, hpar, hp, hvn, nameTaken_true hr0 hkey hkne]) _
       (by simp [mNewbrd, isValidName_eq, hvn, hb])
   have hb0 : b = 0 := by omega
   have hnone : ∀ (k : Nat) (r : Rec), s.brd[k]? = some r → nameKey r.name ≠ nameKey q.name := by
@@ -730,11 +768,11 @@ theorem newBoard_step {srt : Sorter} (hs : SortSpec srt) {s : State} (h : Inv s)
   subst hb0
   have hnt : nameTaken s.brd q.name = false := nameTaken_false hnone
   by_cases hl0 : hasLetter s.letters q.name = false
-  · exact refusal_pack h q .mkdirNoent (by intro b; simp) (by simp [specDecide, hvb, hp, hvn, hnt, hl0]) _
+  · exact refusal_pack h q .mkdirNoent (by intro b; simp) (by simp [specDecide, hvb, hpar, hp, hvn, hnt, hl0]) _
       (by simp [mNewbrd, isValidName_eq, hvn, hb, hl0])
   have hl : hasLetter s.letters q.name = true := by simpa using hl0
   by_cases hd : hasDir s.dirs q.name = true
-  · exact refusal_pack h q .mkdirExist (by intro b; simp) (by simp [specDecide, hvb, hp, hvn, hnt, hl, hd]) _
+  · exact refusal_pack h q .mkdirExist (by intro b; simp) (by simp [specDecide, hvb, hpar, hp, hvn, hnt, hl, hd]) _
       (by simp [mNewbrd, isValidName_eq, hvn, hb, hl, hd])
   have hd' : hasDir s.dirs q.name = false := by simpa using hd
   -- mkdir done; the record is placed
@@ -754,7 +792,7 @@ theorem newBoard_step {srt : Sorter} (hs : SortSpec srt) {s : State} (h : Inv s)
       accept_core hs h1 q (k := k) (by show k ≤ s.bnumber; omega) hkm (hfresh k)
     have hkl : k < s.brd.length := by rw [h.len]; exact hk
     refine ⟨.ok (k + 1), rfl, hI, ?_, husers, hletters, fun hne => absurd rfl (hne (k + 1)), ?_⟩
-    · simp only [SpecStep, specDecide, hvb, hp, hvn, hnt, hl, hd', hasVacant_true hr0 ho]
+    · simp only [SpecStep, specDecide, hvb, hpar, hp, hvn, hnt, hl, hd', hasVacant_true hr0 ho]
       simp only [Bool.not_true, Bool.false_eq_true, if_false, Bool.false_and]
       refine ⟨k, rfl, hdirs, Or.inl ⟨hkl, ⟨r0, hr0, ho⟩, ?_⟩⟩
       rw [hbrd]; simp [placeRaw, hkl]
@@ -777,7 +815,7 @@ theorem newBoard_step {srt : Sorter} (hs : SortSpec srt) {s : State} (h : Inv s)
     have hv' : hasVacant s.brd = false := hv
     have hnl : ¬ s.bnumber < s.brd.length := by rw [h.len]; omega
     refine ⟨.ok (s.bnumber + 1), rfl, hI, ?_, husers, hletters, fun hne => absurd rfl (hne (s.bnumber + 1)), ?_⟩
-    · simp only [SpecStep, specDecide, hvb, hp, hvn, hnt, hl, hd', hv']
+    · simp only [SpecStep, specDecide, hvb, hpar, hp, hvn, hnt, hl, hd', hv']
       have : ¬ (s.brd.length ≥ MAXB) := by rw [h.len]; omega
       simp only [Bool.not_true, Bool.false_eq_true, if_false, Bool.not_false, Bool.true_and, decide_eq_true_eq, this]
       refine ⟨s.bnumber, rfl, hdirs, Or.inr ⟨by trivial, h.len.symm, ?_⟩⟩
@@ -796,7 +834,7 @@ theorem newBoard_step {srt : Sorter} (hs : SortSpec srt) {s : State} (h : Inv s)
     have hge' : MAXB ≤ s.bnumber := hge
     have hlen : s.brd.length ≥ MAXB := by rw [h.len]; exact hge'
     refine refusal_pack h q .tooMany (by intro b; simp)
-      (by simp [specDecide, hvb, hp, hvn, hnt, hl, hd', hv', hlen]) _ ?_
+      (by simp [specDecide, hvb, hpar, hp, hvn, hnt, hl, hd', hv', hlen]) _ ?_
     simp [mNewbrd, isValidName_eq, hvn, hb, hl, hd', hadd, gen_rmdir]
     rw [show (s.dirs ++ [cstr q.name]).erase (cstr q.name) = s.dirs from erase_append_self _ _ hd']
 
